@@ -89,7 +89,7 @@ theorem Frame.close_sound {f : Frame} (h : FrameOk f) : f.close.Forall SoundAt :
   · unfold OrderedKids; rw [List.pairwise_reverse]; exact h1
   · rw [noAdjText_reverse]; exact h3
 
-theorem phase_le_two (v : Value) : v.phase ≤ 2 := by cases v <;> simp [Value.phase]
+theorem ps_phase_le_two (v : Value) : v.phase ≤ 2 := by cases v <;> simp [Value.phase]
 
 /-- Adding a normal, non-document node in front of the stored children. -/
 theorem FrameOk.cons_normal {f : Frame} {k : Tree} (h : FrameOk f)
@@ -101,7 +101,7 @@ theorem FrameOk.cons_normal {f : Frame} {k : Tree} (h : FrameOk f)
     cases hv : k.value <;> simp_all [Value.phase, Value.isNormal, Value.category]
   refine ⟨?_, ?_, ?_, uniqueKids_cons_normal hph hu, ?_⟩
   · simp only [List.pairwise_cons]
-    exact ⟨fun b _ => by rw [hph]; exact phase_le_two _, h1⟩
+    exact ⟨fun b _ => by rw [hph]; exact ps_phase_le_two _, h1⟩
   · obtain ⟨a, b, c⟩ := h2
     refine ⟨fun hv => by simp [hleaf] at hv, fun hv x hx => ?_, fun x hx => ?_⟩
     · simp only [List.mem_cons] at hx
